@@ -624,7 +624,9 @@ func faultCase(k *engine.Case) {
 				cleanup()
 				return
 			}
+			pre := fmt.Sprintf("ended=%v closed=%v wbroken=%v pending=%v reads=%v", x.ended, x.closedLocal, x.writeBroken, x.pending > 0, x.peerReads)
 			model(a, before)
+			k.C.ObserveStr("session_model_transitions", fmt.Sprintf("%s --%s--> ended=%v pending=%v", pre, evNames[a.ev], x.ended, x.pending > 0))
 		} else {
 			// burst: 2-3 simultaneous actions (possibly on the same session)
 			nb := 2 + r.Intn(2)
